@@ -276,6 +276,62 @@ def _montecarlo_table(ck: Checker, prog: Program, f):
             ck.violation("C14.R4", q, f"{p} rebound", f"`{p}` is rebound inside montecarlo_fn", loc=f.loc())
 
 
+FAR_POINT_REFERENCE = """
+if v2 < 0:
+    v1, v2 = v2, v1
+if v1 >= 0:
+    continue
+t = vor.points[p2] - vor.points[p1]
+t /= np.linalg.norm(t)
+n = np.array([-t[1], t[0]])
+midpoint = vor.points[[p1, p2]].mean(axis=0)
+direction = np.sign(np.dot(midpoint - center, n)) * n
+far_point = vor.vertices[v2] + direction * radius
+new_vertices.append(far_point.tolist())
+"""
+
+
+def _far_point(ck: Checker, prog: Program, fp):
+    """The point that closes an open cell, by value: finite end of the ridge + radius * (unit normal of the ridge, pointing away
+    from the centroid as seen from the *midpoint of the two sensors*).  The value appended to the vertex list on every path of
+    the ridge loop is compared with the same computation written out (local names, extracted sub-expressions and the order of
+    factors do not matter)."""
+    from ..pathtable import PathTable
+    loops = [x for x in ast.walk(fp.node) if isinstance(x, ast.For) and any(isinstance(y, ast.Call) and call_name(y) == "append" for y in ast.walk(x))
+             and isinstance(x.target, ast.Tuple) and len(x.target.elts) == 3]
+    if len(loops) != 1:
+        raise AnalysisError(f"{fp.qualname}: the loop over the ridges of an open cell is not recognised")
+    lp = loops[0]
+    names = [n.id for n in lp.target.elts if isinstance(n, ast.Name)]
+    if len(names) != 3:
+        raise AnalysisError(f"{fp.qualname}: ridge loop target")
+    syms = [sp.Symbol(f"<{k}>", real=True) for k in ("p2", "v1", "v2")]
+
+    def appended(body, nm):
+        env = dict(zip(nm, syms))
+        out = []
+        for l in PathTable(prog, fp.module, env=env, structured=True).leaves(body):
+            if l.exit == "raise":
+                continue
+            vals = [e[2] for e in l.events if e[0] == "call" and e[1].endswith(".append") and getattr(e[2], "args", None)]
+            pts = [v.args[-1] for v in vals if any(getattr(getattr(a, "func", None), "__name__", "") in ("sign", "dot") for a in sp.preorder_traversal(v))]
+            out.append((len(vals), pts))
+        return out
+    want = appended(ast.parse(FAR_POINT_REFERENCE).body, ["p2", "v1", "v2"])
+    got = appended(lp.body, names)
+    wp = [p for _n, pts in want for p in pts]
+    gp = [p for _n, pts in got for p in pts]
+    if not wp or not gp:
+        raise AnalysisError(f"{fp.qualname}: the far point of an open ridge is not recognised")
+    if len(gp) == len(wp) and all(any(equal(g, w) for w in wp) for g in gp):
+        ck.ok("C14.R5", fp.qualname, "far point = finite ridge end + radius * outward unit normal (outward judged at the sensors' midpoint)", detail=f"{len(gp)} path(s)")
+    else:
+        ck.violation("C14.R5", fp.qualname, "far point of an open ridge",
+                     f"the point that closes an open cell is {str(gp[0])[:160]}...; expected the finite end of the ridge + radius * unit normal oriented by "
+                     f"sign((midpoint of the two sensors - centroid) . normal): with another reference point the ray can point into the array and the cell areas "
+                     f"(weights) are wrong", loc=fp.loc(lp))
+
+
 def _every_cell_clipped(ck: Checker, prog: Program, bv):
     """Every cell of the tessellation is intersected with the mask on every path through the cell loop (a closed cell can reach
     beyond the boundary just as an open one does): the vertices collected for a cell derive from `<cell>.intersection(mask)`."""
@@ -445,7 +501,25 @@ def _spatial(ck: Checker, prog: Program):
                 ck.violation("C14.R5", fp.qualname, "centre of the sensors", f"the centre used to orient the unbounded cells is {v}, not the centroid {want_c}", loc=fp.loc(cdefs[0]))
     bm = cls.methods["_boundary_to_mask"]
     rets = [r for r in own_nodes(bm.node) if isinstance(r, ast.Return)]
+    hull_of_all = None
     if len(rets) == 1 and unparse(rets[0].value).endswith(".convex_hull"):
+        # ... of *all* boundary points: the sequence the points are made from is the boundary argument itself
+        from ..resolve import Resolver as _Res
+        v = _Res(prog, bm, inline=False).value(rets[0].value, rets[0])
+        seqs = []
+        for a_ in sp.preorder_traversal(v):
+            nm_ = getattr(getattr(a_, "func", None), "__name__", "")
+            if nm_ == "gen" and len(a_.args) >= 2:
+                seqs.append(a_.args[1])
+            elif nm_ in ("MultiPoint", "map") and a_.args and getattr(a_.args[-1], "is_Symbol", False):
+                seqs.append(a_.args[-1])
+        Bsym = sp.Symbol([p_ for p_ in bm.params if p_ not in ("self", "cls")][0], real=True)
+        if seqs:
+            hull_of_all = all(x == Bsym for x in seqs)
+    if hull_of_all is False:
+        ck.violation("C14.R5", bm.qualname, "mask", f"the boundary mask is the hull of {[str(x) for x in seqs if x != Bsym][0]}, not of all the boundary points given: "
+                     f"the region (and every weight) shrinks", loc=bm.loc())
+    elif len(rets) == 1 and unparse(rets[0].value).endswith(".convex_hull"):
         ck.ok("C14.R5", bm.qualname, "mask = convex hull of the boundary points", nontrivial=False)
     else:
         ck.violation("C14.R5", bm.qualname, "mask", "the boundary mask is not the convex hull of the boundary points", loc=bm.loc())
@@ -459,6 +533,7 @@ def _spatial(ck: Checker, prog: Program):
     else:
         ck.violation("C14.R5", bv.qualname, "tessellation bookkeeping", "cells and indices do not come from one culling of the sensors against the given mask", loc=bv.loc())
     ck.guard(_every_cell_clipped, ck, prog, bv)
+    ck.guard(_far_point, ck, prog, cls.methods["_voronoi_finite_polygons_2d"])
     ck.guard(_closing_distance, ck, prog, cls)
     # statelessness
     n = 0
